@@ -108,8 +108,8 @@ Qed.
 Lemma apply_change_live vals path v p :
   live (fst (apply_change_to_config vals path v)) p = if eqb_str p path then live_of v else live vals p.
 Proof.
-  unfold apply_change_to_config. rewrite drop_ancestors_live. cbn [fst]. unfold live. rewrite map_get_set.
-  destruct (eqb_str p path); reflexivity.
+  unfold apply_change_to_config. destruct (pv_deleted v); [|rewrite drop_ancestors_live]; cbn [fst]; unfold live;
+    rewrite map_get_set; destruct (eqb_str p path); reflexivity.
 Qed.
 
 Lemma apply_all_live upd : forall vals p, nodup upd ->
